@@ -28,10 +28,20 @@ BUILTIN_RANGE = {"int8": "-128..127", "int16": "-32768..32767", "int32": "-21474
 NAMES = ["t0", "t1", "t2", "t3", "t4"]
 SHADOW = ["string", "int8", "union"]
 PREFIXES = ["p", "q", "r", "s"]
-PATTERNS = ["a.*", "[0-9]+", "b+", "x|y", ".{3}", "c?d"]
+LONG = "long-" + "0123456789abcdef" * 40
+# boundary values included: the empty string (an empty statement still overrides what is inherited), blanks, quotes
+# and backslashes (need quoting), a very long string; small pools so that a link often repeats the inherited value
+PATTERNS = ["a.*", "[0-9]+", "b+", "x|y", ".{3}", "c?d", "", "a b", 'q"x', "\\d+", "it's"]
 MEMBERS = ["e0", "e1", "e2", "e3", "e4"]
-UNITS = ["u0", "u1", "u2"]
-DEFAULTS = ["d0", "d1", "d2"]
+ENUM_NAMES = MEMBERS + ["e 5", 'e"6', "e\\7", "it's"]
+UNITS = ["u0", "u1", "u2", "", "", "u 3", 'u"4', "u\\5", LONG]
+DEFAULTS = ["d0", "d1", "d2", "", "", "d 3", 'd"4', "d\\5", LONG]
+PATHS = ["../x", "../y", "../z", "../w", "", "../a b", '../q"c']
+
+
+def yq(s):
+    """a YANG double-quoted string"""
+    return '"' + s.replace("\\", "\\\\").replace('"', '\\"') + '"'
 MAXCHAIN = 6
 
 
@@ -70,13 +80,13 @@ class TRef:
         if self.length is not None:
             subs.append('length "%s";' % self.length)
         for p in self.pats:
-            subs.append("pattern '%s';" % p)
+            subs.append("pattern %s;" % yq(p))
         for e in self.enums:
-            subs.append("enum %s;" % e)
+            subs.append("enum %s;" % yq(e))
         for e in self.bits:
             subs.append("bit %s;" % e)
         if self.path is not None:
-            subs.append('path "%s";' % self.path)
+            subs.append("path %s;" % yq(self.path))
         if self.idbase is not None:
             subs.append("base %s;" % self.idbase)
         for m in self.members:
@@ -172,9 +182,9 @@ def render_typedef(td, ind):
     pad = "  " * ind
     out = [pad + "typedef %s {" % td.name, pad + "  " + td.type.render(ind + 1)]
     if td.units is not None:
-        out.append(pad + '  units "%s";' % td.units)
+        out.append(pad + "  units %s;" % yq(td.units))
     if td.default is not None:
-        out.append(pad + '  default "%s";' % td.default)
+        out.append(pad + "  default %s;" % yq(td.default))
     out.append(pad + "}")
     return out
 
@@ -452,11 +462,11 @@ class Gen:
             t.fd = rnd.randint(1, 18)
             t.fdset = True
         elif k == "enumeration":
-            t.enums = rnd.sample(MEMBERS, rnd.randint(1, 4))
+            t.enums = rnd.sample(ENUM_NAMES, rnd.randint(1, 4))
         elif k == "bits":
             t.bits = rnd.sample(MEMBERS, rnd.randint(1, 4))
         elif k == "leafref":
-            t.path = "../" + rnd.choice(["x", "y", "z"])
+            t.path = rnd.choice(PATHS)
         elif k == "identityref":
             t.idbase = "id_" + scope.mod.name
         elif k == "union":
@@ -477,11 +487,11 @@ class Gen:
             t.pats = [rnd.choice(PATTERNS) for _ in range(rnd.choice([1, 1, 2, 3, 3]))]
         if not first:
             if k == "enumeration" and rnd.random() < 0.3:
-                t.enums = rnd.sample(MEMBERS, rnd.randint(1, 3))
+                t.enums = rnd.sample(ENUM_NAMES, rnd.randint(1, 3))
             if k == "bits" and rnd.random() < 0.3:
                 t.bits = rnd.sample(MEMBERS, rnd.randint(1, 3))
             if k == "leafref" and rnd.random() < 0.2:
-                t.path = "../" + rnd.choice(["x", "y", "z", "w"])
+                t.path = rnd.choice(PATHS)
             if k == "union" and nest < 2 and rnd.random() < 0.2:
                 for _ in range(rnd.randint(1, 2)):
                     t.members.append(self.make_ref(S, scope, nest + 1))
@@ -859,6 +869,25 @@ def corpus():
     lf(m0.top, "l9", ref("union", members=[ref("a1"), ref("a1"), ref("string"), ref("b1"), ref("bits", bits=["zz"]),
                                           ref("e1"), ref("e2"), ref("int8"), ref("int8", range="1..9")]))
     out.append(("chain6", False, Schema([m0])))
+    # an EMPTY units / default / pattern / path statement is a statement: it overrides what is inherited
+    m0 = mod("m0", "p")
+    td(m0.top, "a", ref("int8"), units="seconds", default="5")
+    td(m0.top, "b", ref("a"), units="", default="")
+    td(m0.top, "c", ref("b"))
+    td(m0.top, "d", ref("c"), units="seconds")
+    lf(m0.top, "l1", ref("b"))
+    lf(m0.top, "l2", ref("c"))
+    lf(m0.top, "l3", ref("a"))
+    lf(m0.top, "l4", ref("d"))
+    td(m0.top, "s", ref("string", pats=["", "x y", 'q"r', "back\\slash"]))
+    lf(m0.top, "l5", ref("s", pats=["", "z"]))
+    td(m0.top, "r", ref("leafref", path="../x"))
+    lf(m0.top, "l6", ref("r", path=""))
+    td(m0.top, "e", ref("enumeration", enums=["e 5", 'e"6', "plain"]))
+    lf(m0.top, "l7", ref("e"))
+    td(m0.top, "lng", ref("string"), units=LONG, default=LONG)
+    lf(m0.top, "l8", ref("lng"))
+    out.append(("empty-overrides", False, Schema([m0])))
     # a later typedef of the same name in the same scope replaces the earlier one in the dictionary
     m0 = mod("m0", "p")
     td(m0.top, "t0", ref("nosuch"))
